@@ -52,16 +52,6 @@ func (c13) Gen(seed int64, tier string, avoid []string) *Plan {
 		}
 	}
 	genRigTraffic(r, &cfg, p, tier, opt)
-	// RTX sequence numbers start at a value pion/rtp draws from an unseeded generator: they are masked where
-	// packets are compared, but a dump of a retransmission cannot be masked, so dump members see no RTX
-	for _, k := range cfg.Kinds {
-		if k == "dump_send" || k == "dump_recv" {
-			for i := range cfg.Local {
-				cfg.Local[i].RTX = false
-			}
-			p.Cfg = mustJSON(cfg)
-		}
-	}
 	return p
 }
 
